@@ -396,6 +396,15 @@ def date_system_rule(ctx, prog, rid):
     from sa.inline import expand as _exp8
 
     d = _exp8(prog, f, local_only=True)   # the arithmetic may live in a module-level function of the date value and the flag
+    body_ = [s_ for s_ in d.body if not (isinstance(s_, ast.Expr) and isinstance(s_.value, ast.Constant))]
+    if len(body_) == 1 and isinstance(body_[0], ast.Return) and isinstance(body_[0].value, ast.Call):
+        # ... or in a function of another module the method only hands its label and flag to: read in place too
+        try:
+            d2 = _exp8(prog, f, depth=2, local_only=False)
+            if any(isinstance(x, (ast.If, ast.IfExp)) for x in ast.walk(d2)):
+                d = d2
+        except Exception:  # noqa: BLE001
+            pass
     flag_names = {flag}
     for n_ in ast.walk(d):
         # plain copies / bool() of the flag stand for the flag
@@ -754,10 +763,15 @@ def run(ctx):
         if not any(f.module is m_ for m_ in wmods_):
             continue
         for c in ast.walk(f.node):
-            if isinstance(c, ast.Call) and (dotted(c.func) or "").endswith("numRef_xml") and len(c.args) == 3:
-                r, v = dotted(c.args[0]) or "", dotted(c.args[2]) or ""
-                if r.startswith("self._series.") and v.startswith("self._series."):
-                    pairs.setdefault(r.split(".")[-1], set()).add(v.split(".")[-1])
+            if isinstance(c, ast.Call) and (dotted(c.func) or "").endswith("numRef_xml"):
+                # the worksheet reference and the values it is written next to, however they are passed (by position or by name;
+                # the number format, when passed, is neither)
+                given = [dotted(a_) or "" for a_ in list(c.args) + [k_.value for k_ in c.keywords]]
+                given = [g_ for g_ in given if g_.startswith("self._series.") and not g_.endswith("number_format")]
+                refs_ = [g_ for g_ in given if g_.endswith("_ref")]
+                vals_ = [g_ for g_ in given if not g_.endswith("_ref")]
+                if len(refs_) == 1 and len(vals_) == 1:
+                    pairs.setdefault(refs_[0].split(".")[-1], set()).add(vals_[0].split(".")[-1])
     # category values: values_ref sits in the template whose points come from _val_pt_xml (iterates self._series.values)
     cs = wm.classes.get("_CategorySeriesXmlWriter")
     vp = cs.methods.get("_val_pt_xml") if cs else None
